@@ -47,14 +47,21 @@ type Solver struct {
 	inPush   bool
 	pushDefs []int
 	pushDecl []string
+	base     strings.Builder // transcript of base-level declarations, definitions and assertions
+	Fallbacks int
 	// stats
 	Queries   int
+	fbTimeout time.Duration
 	SolveTime time.Duration
 	log       io.Writer
 }
 
 func NewSolver(kind SolverKind, timeout time.Duration) (*Solver, error) {
 	var cmd *exec.Cmd
+	fb := timeout
+	if kind == Z3 && timeout > 15*time.Second {
+		timeout = 15 * time.Second // the rest of the budget goes to the fall-back solvers
+	}
 	ms := strconv.Itoa(int(timeout / time.Millisecond))
 	switch kind {
 	case Z3:
@@ -78,7 +85,7 @@ func NewSolver(kind SolverKind, timeout time.Duration) (*Solver, error) {
 	if err := cmd.Start(); err != nil {
 		return nil, err
 	}
-	s := &Solver{kind: kind, cmd: cmd, in: in, out: bufio.NewReaderSize(out, 1<<16), timeout: timeout}
+	s := &Solver{kind: kind, cmd: cmd, in: in, out: bufio.NewReaderSize(out, 1<<16), timeout: timeout, fbTimeout: fb}
 	return s, nil
 }
 
@@ -106,6 +113,7 @@ func (s *Solver) Begin(st *Store) {
 	s.asserted = 0
 	s.inPush = false
 	s.pushDefs, s.pushDecl = nil, nil
+	s.base.Reset()
 	s.send("(reset)\n")
 	if s.kind == CVC5 || s.kind == CVC5Int {
 		s.send("(set-logic QF_UFBV)\n")
@@ -145,7 +153,7 @@ func (s *Solver) define(t *Term) {
 		}
 		switch x.op {
 		case OpVar:
-			fmt.Fprintf(&sb, "(declare-fun |%s| () %s)\n", x.name, sortStr(x.w))
+			fmt.Fprintf(&sb, "(declare-fun |v!%s| () %s)\n", x.name, sortStr(x.w))
 		case OpUF:
 			if !s.declared[x.name] {
 				s.declared[x.name] = true
@@ -165,6 +173,9 @@ func (s *Solver) define(t *Term) {
 		}
 		stack = stack[:len(stack)-1]
 	}
+	if !s.inPush {
+		s.base.WriteString(sb.String())
+	}
 	s.send(sb.String())
 }
 
@@ -174,6 +185,7 @@ func (s *Solver) AssertPC(pc []*Term) {
 		t := pc[s.asserted]
 		s.define(t)
 		s.send("(assert " + t.ref() + ")\n")
+		s.base.WriteString("(assert " + t.ref() + ")\n")
 	}
 }
 
@@ -228,10 +240,213 @@ func (s *Solver) Check(pc []*Term, extra *Term, keep bool) (SatResult, error) {
 		break
 	}
 	s.SolveTime += time.Since(t0)
+	if res == Unknown {
+		s.Pop()
+		t1 := time.Now()
+		r2, _, err := s.fallback(extra, nil)
+		s.SolveTime += time.Since(t1)
+		if err != nil || r2 == Unknown {
+			return Unknown, err
+		}
+		if keep && r2 == Sat {
+			// the caller wants a model from the primary solver state: not available
+			return Unknown, fmt.Errorf("primary solver timed out on a model query (use CheckModel)")
+		}
+		return r2, nil
+	}
 	if !(keep && res == Sat) {
 		s.Pop()
 	}
 	return res, nil
+}
+
+// CheckModel decides pc ∧ extra and, when satisfiable, returns the model values of ts.
+func (s *Solver) CheckModel(pc []*Term, extra *Term, ts []*Term) (SatResult, []ModelVal, error) {
+	s.AssertPC(pc)
+	if extra != nil {
+		s.define(extra)
+	}
+	s.send("(push 1)\n")
+	s.inPush = true
+	if extra != nil {
+		s.send("(assert " + extra.ref() + ")\n")
+	}
+	t0 := time.Now()
+	s.send("(check-sat)\n")
+	s.Queries++
+	res, err := s.readResult()
+	s.SolveTime += time.Since(t0)
+	if err != nil {
+		s.Pop()
+		return Unknown, nil, err
+	}
+	switch res {
+	case Sat:
+		mv, err := s.GetValues(ts)
+		s.Pop()
+		if err != nil {
+			return Unknown, nil, err
+		}
+		return Sat, mv, nil
+	case Unsat:
+		s.Pop()
+		return Unsat, nil, nil
+	}
+	s.Pop()
+	t1 := time.Now()
+	r2, mv, err := s.fallback(extra, ts)
+	s.SolveTime += time.Since(t1)
+	return r2, mv, err
+}
+
+func (s *Solver) readResult() (SatResult, error) {
+	for {
+		line, err := s.readLine()
+		if err != nil {
+			return Unknown, fmt.Errorf("solver %s died: %v", s.kind, err)
+		}
+		switch {
+		case line == "":
+			continue
+		case line == "sat":
+			return Sat, nil
+		case line == "unsat":
+			return Unsat, nil
+		case line == "unknown" || line == "timeout":
+			return Unknown, nil
+		case strings.HasPrefix(line, "(error"):
+			return Unknown, fmt.Errorf("solver %s: %s", s.kind, line)
+		case strings.Contains(line, "interrupted") || strings.Contains(line, "timeout"):
+			return Unknown, nil
+		}
+	}
+}
+
+// fallback re-decides the current session's base assertions ∧ extra with one-shot runs of the
+// other solvers (cvc5 bit-blasting, z3 5.1, cvc5 integer encoding). Any "(error" is inconclusive.
+func (s *Solver) fallback(extra *Term, ts []*Term) (SatResult, []ModelVal, error) {
+	s.Fallbacks++
+	var sb strings.Builder
+	sb.WriteString("(set-option :produce-models true)\n(set-logic QF_UFBV)\n")
+	sb.WriteString(s.base.String())
+	// definitions needed for extra / ts that are not at base level
+	saved := s.inPush
+	s.inPush = true // keep define() from recording into the base transcript
+	var extraDefs strings.Builder
+	capture := s.log
+	_ = capture
+	defs := s.captureDefs(append(append([]*Term{}, ts...), extra))
+	s.inPush = saved
+	extraDefs.WriteString(defs)
+	sb.WriteString(extraDefs.String())
+	if extra != nil {
+		sb.WriteString("(assert " + extra.ref() + ")\n")
+	}
+	sb.WriteString("(check-sat)\n")
+	var idx []int
+	if len(ts) > 0 {
+		sb.WriteString("(get-value (")
+		for i, t := range ts {
+			if t.op == OpConst {
+				continue
+			}
+			sb.WriteString(t.ref() + " ")
+			idx = append(idx, i)
+		}
+		sb.WriteString("))\n")
+	}
+	script := sb.String()
+	ms := strconv.Itoa(int(s.fallbackTimeout() / time.Millisecond))
+	try := [][]string{
+		{"cvc5", "--lang=smt2", "--produce-models", "--tlimit=" + ms},
+		{"z3-new", "-in", "-T:" + strconv.Itoa(int(s.fallbackTimeout()/time.Second))},
+		{"cvc5", "--lang=smt2", "--produce-models", "--solve-bv-as-int=sum", "--tlimit=" + ms},
+	}
+	for _, argv := range try {
+		cmd := exec.Command(argv[0], argv[1:]...)
+		cmd.Stdin = strings.NewReader(script)
+		out, _ := cmd.CombinedOutput()
+		txt := strings.TrimSpace(string(out))
+		if strings.Contains(txt, "(error") {
+			continue
+		}
+		switch {
+		case strings.HasPrefix(txt, "unsat"):
+			return Unsat, nil, nil
+		case strings.HasPrefix(txt, "sat"):
+			res := make([]ModelVal, len(ts))
+			for i, t := range ts {
+				if t.op == OpConst {
+					res[i] = ModelVal{w: t.w, lo: t.c}
+				}
+			}
+			if len(idx) > 0 {
+				rest := strings.TrimSpace(txt[3:])
+				vals, err := parseValues(rest)
+				if err != nil || len(vals) != len(idx) {
+					continue
+				}
+				for k, i := range idx {
+					vals[k].w = ts[i].w
+					res[i] = vals[k]
+				}
+			}
+			return Sat, res, nil
+		}
+	}
+	return Unknown, nil, nil
+}
+
+func (s *Solver) fallbackTimeout() time.Duration {
+	if s.fbTimeout > 0 {
+		return s.fbTimeout
+	}
+	return 60 * time.Second
+}
+
+// captureDefs returns the definitions of the given terms that are missing at base level,
+// without sending them to the primary solver.
+func (s *Solver) captureDefs(ts []*Term) string {
+	defined := map[int]bool{}
+	for k, v := range s.defined {
+		defined[k] = v
+	}
+	declared := map[string]bool{}
+	for k, v := range s.declared {
+		declared[k] = v
+	}
+	var sb strings.Builder
+	var emit func(x *Term)
+	emit = func(x *Term) {
+		if x == nil || x.op == OpConst || defined[x.id] {
+			return
+		}
+		for _, a := range x.args {
+			emit(a)
+		}
+		defined[x.id] = true
+		switch x.op {
+		case OpVar:
+			fmt.Fprintf(&sb, "(declare-fun |v!%s| () %s)\n", x.name, sortStr(x.w))
+		case OpUF:
+			if !declared[x.name] {
+				declared[x.name] = true
+				d := s.store.ufs[x.name]
+				sb.WriteString("(declare-fun |" + x.name + "| (")
+				for _, w := range d.argw {
+					sb.WriteString(sortStr(w) + " ")
+				}
+				sb.WriteString(") " + sortStr(d.w) + ")\n")
+			}
+			fmt.Fprintf(&sb, "(define-fun t%d () %s %s)\n", x.id, sortStr(x.w), x.body())
+		default:
+			fmt.Fprintf(&sb, "(define-fun t%d () %s %s)\n", x.id, sortStr(x.w), x.body())
+		}
+	}
+	for _, t := range ts {
+		emit(t)
+	}
+	return sb.String()
 }
 
 func (s *Solver) Pop() {
